@@ -16,7 +16,8 @@ EXPLANATION = ("Bounded symbolic execution of the real PAF generator on symbolic
                "animals inside / outside the image). Per feasible path (in-image mask x missing-point pattern x zero-length edges) z3 decides per cell: "
                "S1 the output equals the sum over kept animals of w*(dst-src)/|dst-src| with w = exp(-(dist^2)^2/2sigma^2) of the true clamped-projection "
                "distance (edges >= 1 px), in channel order e0.x,e0.y,e1.x,...; S2 never NaN/inf; S3 single animal: parallel, same orientation, |v|<=1; "
-               "S4 degenerate edges / filtered animals contribute exactly zero; K the animals the code itself keeps (read off the tensor it hands to "
+               "S4 degenerate edges / filtered animals contribute exactly zero; S5 single animal, any non-zero edge length: |field| equals the weight the code computed "
+               "for the cell (the direction factor is a unit vector); every call is preceded by one with another geometry of the same grid shape (no state survives); K the animals the code itself keeps (read off the tensor it hands to "
                "get_edge_points) include every animal with a node strictly inside the grid box (K1) and no animal wholly outside the image that has a "
                "drawable edge (K2), on square and non-square images; L the reference distance is the true point-to-segment distance.")
 ASSUMPTIONS = ["exact real arithmetic + IEEE special values; a missing keypoint has both coordinates NaN (one flag per point)",
@@ -112,9 +113,13 @@ def _run_main(cfg):
     import sleap_nn.data.utils as du
     taps = []
 
-    def tapped_gaussian_pdf(x, sigma):  # observation only: records the squared distances handed to the real gaussian_pdf
+    wtaps = []
+
+    def tapped_gaussian_pdf(x, sigma):  # observation only: records the squared distances handed to the real gaussian_pdf and the weights it returns
         taps.append(x)
-        return du.gaussian_pdf(x, sigma)
+        w_ = du.gaussian_pdf(x, sigma)
+        wtaps.append(w_)
+        return w_
     em.gaussian_pdf = tapped_gaussian_pdf
     kept_taps = []
     real_get_edge_points = em.get_edge_points
@@ -125,15 +130,18 @@ def _run_main(cfg):
     em.get_edge_points = tapped_get_edge_points
 
     def path():
-        taps.clear()
-        kept_taps.clear()
         with T.SymMode():
+            # history: a call with another geometry that yields the same grid shape comes first; nothing of it may survive into the call under test
+            generate_pafs(torch.full((1, A, N, 2), 1.0) + torch.arange(N, dtype=torch.float32).reshape(1, 1, N, 1), (2 * H, 2 * W), 2.75, 2 * stride, torch.tensor(edges), True)
+            taps.clear()
+            wtaps.clear()
+            kept_taps.clear()
             inst = _sym_instances(T, A, N)
             out = generate_pafs(inst, (H, W), sigma, stride, torch.tensor(edges), True)
-        return inst, out, list(taps), [(a, v) for k, (a, v) in CTX.memo.items() if k[0] == "sqrt"], list(kept_taps)
+        return inst, out, list(taps), [(a, v) for k, (a, v) in CTX.memo.items() if k[0] == "sqrt"], list(kept_taps), list(wtaps)
 
     two_s2 = Fraction(2 * sigma ** 2)
-    for inst, out, dist_taps, sqrt_defs, kept_obs in ex.run(path):
+    for inst, out, dist_taps, sqrt_defs, kept_obs, w_obs in ex.run(path):
         rep.paths += 1
         rep.nontrivial_paths += 1
         kv = inst.values()
@@ -234,11 +242,13 @@ def _run_main(cfg):
                 miss = Or(sx.nan, dx.nan)
                 ex_, ey_ = xf.rsub(dx.v, sx.v), xf.rsub(dy.v, sy.v)
                 len2 = xf.radd(xf.rmul(ex_, ex_), xf.rmul(ey_, ey_))
-                m_st = ex.query([xf.zb(miss)]).status
-                z_st = "unsat" if m_st == "sat" else ex.query([xf.zb(rcmp("==", len2, 0))]).status
-                any_missing |= m_st == "sat"
-                any_zero |= z_st == "sat"
-                valid = m_st == "unsat" and z_st == "unsat"  # flags/zero-length are concrete on a path (fork_specials)
+                # missing endpoints / zero length are normally already decided on a path (the code's own NaN tests and divisions fork eagerly);
+                # where the code under test leaves them open the harness decides them itself (forks), never guesses
+                is_miss = ex.decide(xf.zb(miss))
+                is_zero = False if is_miss else ex.decide(xf.zb(rcmp("==", len2, 0)))
+                any_missing |= is_miss
+                any_zero |= is_zero
+                valid = (not is_miss) and (not is_zero)
                 valid_flags[(a, e)] = valid
                 if not (valid and uf):
                     continue
@@ -323,6 +333,19 @@ def _run_main(cfg):
                                                         rcmp("<=", xf.radd(xf.rmul(px, px), xf.rmul(py, py)), 1))))
                 discharge_all(ex, rep, "S3-parallel-same-orientation-magnitude<=1", goals,
                               on_sat=lambda m, env: (f"S3-direction:{sig}", "a PAF vector is not a [0,1]-weighted unit vector from source to destination", extract(m, env)))
+                # S5: "the UNIT vector ... scaled by a weight": the magnitude of the field equals the weight the code itself computed for that cell
+                # (edges of ANY non-zero length, incl. shorter than a pixel where S1's weight reference is not asserted)
+                rank = sum(1 for b in range(a) if kept[b])
+                if rank < len(w_obs) and tuple(w_obs[rank].shape) == (gh, gw, E):
+                    wv = w_obs[rank].values()
+                    goals = []
+                    for i in range(gh):
+                        for j in range(gw):
+                            px, py = cell(2 * e, i, j).v, cell(2 * e + 1, i, j).v
+                            w_ = wv[(i * gw + j) * E + e].v
+                            goals.append(xf.Implies(claim, rcmp("==", xf.radd(xf.rmul(px, px), xf.rmul(py, py)), xf.rmul(w_, w_))))
+                    discharge_all(ex, rep, "S5-field-magnitude-equals-the-weight-of-the-cell", goals,
+                                  on_sat=lambda m, env: (f"S5-unit:{sig}", "the direction factor is not a unit vector: |field| differs from the weight the code computed for the cell", extract(m, env)))
         rep.sample({"kept": kept, "path_condition": ex.path_summary(3, 70)})
     rep.infeasible_paths = ex.infeasible
     if not uf:
@@ -401,7 +424,28 @@ def replay(cfg, inputs, obligation):
     from sleap_nn.data.edge_maps import generate_pafs
     A, N, edges, H, W, stride, sigma = cfg["A"], cfg["N"], cfg["edges"], cfg["H"], cfg["W"], cfg["stride"], cfg["sigma"]
     inst = torch.tensor(unjson_float(inputs["instances"]), dtype=torch.float32).reshape(1, A, N, 2)
-    out = generate_pafs(inst.clone(), (H, W), sigma, stride, torch.tensor(edges), True).numpy().astype(np.float64)
+    generate_pafs(torch.full((1, A, N, 2), 1.0) + torch.arange(N, dtype=torch.float32).reshape(1, 1, N, 1), (2 * H, 2 * W), 2.75, 2 * stride, torch.tensor(edges), True)  # same history as the check
+    import sleap_nn.data.edge_maps as em_
+    import sleap_nn.data.utils as du_
+    wseen = []
+    real_pdf = em_.gaussian_pdf
+    def _pdf(x, sigma):
+        wseen.append(du_.gaussian_pdf(x, sigma))
+        return wseen[-1]
+    em_.gaussian_pdf = _pdf
+    try:
+        out = generate_pafs(inst.clone(), (H, W), sigma, stride, torch.tensor(edges), True).numpy().astype(np.float64)
+    finally:
+        em_.gaussian_pdf = real_pdf
+    if obligation.startswith("S5"):
+        if A == 1 and len(wseen) == 1:
+            wts = wseen[0].numpy().astype(np.float64)  # (gh, gw, E): the code's own weights
+            for e in range(len(edges)):
+                mag = np.sqrt(out[2 * e] ** 2 + out[2 * e + 1] ** 2)
+                if not np.allclose(mag, wts[..., e], rtol=1e-4, atol=1e-6):
+                    k = np.unravel_index(np.argmax(np.abs(mag - wts[..., e])), mag.shape)
+                    return True, f"edge {e} cell {k}: |field| = {mag[k]} but the weight of the cell is {wts[..., e][k]} (instances {inst.reshape(-1, 2).tolist()})"
+        return False, "field magnitude equals the cell weight"
     E = len(edges)
     gh, gw = -(-H // stride), -(-W // stride)
     if out.shape != (2 * E, gh, gw):
